@@ -70,6 +70,17 @@ class DiscExecutor(BlockExecutor):
             st.events.append(("expectation", v[1]))
         return super().write(st, place, v)
 
+    def eval_rv(self, st, rv):
+        v = super().eval_rv(st, rv)
+        if rv[0] == "discr" and not st.frames and v[0] == "int":
+            try:
+                src = st.heap[self.cell_of(st, rv[1])]
+            except Exception:  # noqa: BLE001
+                src = None
+            if src is not None and src[0] == "opaque":
+                st.events.append(("discr_of", src, v[1]))
+        return v
+
     def apply_havoc(self, st, body, locals_):
         hit = [bb for bb, ls in (self.loop_havoc or {}).items() if ls is locals_]
         r = super().apply_havoc(st, body, locals_)
@@ -101,6 +112,10 @@ class DiscExecutor(BlockExecutor):
             ty = mi.group(1)
             if re.match(r"^Enumerate<", ty):
                 st.events.append(("enum_next", bool(re.match(r"^Enumerate<std::slice::Iter<'_, Property<M>>>$", ty)), ty))
+            r = super().call(st, body, t)
+            if isinstance(r, tuple) and r and r[0] == "opaque":
+                st.events.append(("iter_next", r, ty))
+            return r
         if re.search(r"DashMap::<&str, .*>::contains_key::<", f):
             b = self.fresh_bool("discovered")
             st.events.append(("contains_key", b, tv[1:]))
@@ -250,7 +265,7 @@ def obligations(name, text, lib_rs, helpers=None):
 
     for i, o, st, g, pop, segs in per_path:
         job = pop[3]  # component values of the popped job
-        tagp = f"path {i} [" + ",".join(e[0] for e in st.events if e[0] not in ("pop_some", "loop")) + f"]->{o.kind}"
+        tagp = f"path {i} [" + ",".join(e[0] for e in st.events if e[0] not in ("pop_some", "loop", "iter_next", "discr_of")) + f"]->{o.kind}"
         is_job = lambda v: any(v == comp for comp in job)  # noqa: E731
         kinds = [k for k, _ in segs]
         for si, (kind, evs) in enumerate(segs):
@@ -336,10 +351,10 @@ def obligations(name, text, lib_rs, helpers=None):
                 for pu in pushes:
                     n["push"] += 1
                     if not wbs:
-                        must("C01,C02", f"{tagp}: S-boundary: a successor is queued only after the boundary test", g, structural_ok=False)
+                        must("C01,C02,C03", f"{tagp}: S-boundary: a successor is queued only after the boundary test", g, structural_ok=False)
                     else:
-                        must("C01,C02", f"{tagp}: S-boundary: a successor is queued only if `within_boundary` held", g, z3.Not(wbs[0][1]))
-                        must("C01,C02", f"{tagp}: S-boundary: the state queued is the state the boundary test was applied to", g, structural_ok=any(wbs[0][2] == comp for comp in pu[1]))
+                        must("C01,C02,C03", f"{tagp}: S-boundary: a successor is queued only if `within_boundary` held", g, z3.Not(wbs[0][1]))
+                        must("C01,C02,C03", f"{tagp}: S-boundary: the state queued is the state the boundary test was applied to", g, structural_ok=any(wbs[0][2] == comp for comp in pu[1]))
                     if vac:
                         must("C01,C02", f"{tagp}: S-dedup: a successor is queued only after it was newly inserted into the visited set", g, structural_ok=True)
                     elif gins:
@@ -392,6 +407,19 @@ def obligations(name, text, lib_rs, helpers=None):
                 if ecs and not discs and complete:
                     must("C11", f"{tagp}: T-complete: a terminal state whose bit is still set (property without discovery) records a counterexample", g, ecs[0][1], *[z3.Not(e[1]) for e in cks])
         # the round as a whole
+        if "T" in kinds:
+            must("C03,C11", f"{tagp}: T-terminal: the terminal-state loop runs only after the successors of the state were generated (`model.actions` was called)", g, structural_ok=("S" in kinds and kinds.index("S") < kinds.index("T")))
+        for si, (kind, evs) in enumerate(segs):
+            if kind != "S":
+                continue
+            left = si < len(segs) - 1 or o.kind in ("return", "reach")
+            nx = [e for e in evs if e[0] == "iter_next"]
+            if left and nx:
+                last = nx[-1][1]
+                ds = [e for e in evs if e[0] == "discr_of" and e[1] == last]
+                if not ds:
+                    raise Unsupported(f"{name} check_block: the successor loop is left without testing the iterator's result")
+                must("C01,C02", f"{tagp}: S-exhaust: the successor loop is left only when its iterator is exhausted (next() returned None), so every enabled action is tried", g, ds[-1][2] != 0)
         if "P" in kinds and "S" not in kinds and o.kind in ("return", "reach"):
             aw = _val_at_end(st, L_await)
             if aw is not None:
